@@ -143,3 +143,12 @@ mod tests {
 
     }
 }
+
+#[cfg(feature = "verif")]
+pub fn verif_subpartition<'a, T: VecData<T> + 'a, C: Comparator<T>>(
+    partitioning: &[Premerge],
+    left: &[T],
+    right: &[T],
+) -> Vec<Premerge> {
+    subpartition::<T, C>(partitioning, left, right)
+}
